@@ -234,6 +234,11 @@ func c04(r *Report) {
 	})
 
 	r.Guard("C04.R3", "the upstream connection and response body are released on every exit", func() {
+		if h := r.Use("", "Proxy.handle"); h != nil {
+			requestBodyClosedOnlyByDefer(r, h)
+		}
+		setterStoresRule(r, "", "Proxy", "SetDial", "dial", "tunnels are dialled with the default dialler whatever the user configures")
+		setterStoresRule(r, "", "Proxy", "SetDownstreamProxy", "proxyURL", "CONNECT goes to the target directly although a downstream proxy was configured")
 		errorsReturnedRule(r, conn, false)
 
 		// the connection connect() hands to the tunnel carries no leftover time limit
@@ -429,6 +434,9 @@ func c04(r *Report) {
 
 	r.Guard("C04.R4", "a failed CONNECT yields a written and flushed 502 with a Warning that passed the response modifier", func() {
 		synth502(r, hcr, cconnCalls[0], 0, "connect")
+		if wf := r.Use("proxyutil", "Warning"); wf != nil {
+			warningQuoted(r, wf)
+		}
 		tests := errTests(cconnCalls[0])
 		if len(tests) != 1 {
 			return
@@ -550,6 +558,56 @@ func tunnelEOSRule(r *Report, hcr *ssa.Function, cops []tunnelCopier) {
 			}
 			break
 		}
+	}
+	// a destination that can half-close is half-closed, not closed: the full close is the
+	// fallback for destinations without CloseWrite only (it also ends the opposite direction,
+	// whose bytes the peer then never receives)
+	for _, c := range cops {
+		var ta *ssa.TypeAssert
+		for _, in := range instrs(c.Fn) {
+			x, ok := in.(*ssa.TypeAssert)
+			if !ok || !x.CommaOk {
+				continue
+			}
+			if iface, isI := x.AssertedType.Underlying().(*types.Interface); isI {
+				for k := 0; k < iface.NumMethods(); k++ {
+					if iface.Method(k).Name() == "CloseWrite" {
+						ta = x
+					}
+				}
+			}
+		}
+		if ta == nil {
+			continue
+		}
+		okv := extractOf(ta, 1)
+		half, full := false, true
+		for _, in := range instrs(c.Fn) {
+			cc, isC := in.(*ssa.Call)
+			if !isC || !cc.Call.IsInvoke() {
+				continue
+			}
+			switch cc.Call.Method.Name() {
+			case "CloseWrite":
+				for _, e := range branchesOn(okv) {
+					if blockDominates(e.True, cc.Block()) {
+						half = true
+					}
+				}
+			case "Close":
+				onNotOk := false
+				for _, e := range branchesOn(okv) {
+					if blockDominates(e.False, cc.Block()) {
+						onNotOk = true
+					}
+				}
+				if !onNotOk {
+					full = false
+				}
+			}
+		}
+		r.Decide("path", fnName(c.Fn)+": a destination that can half-close is half-closed", okv != nil && half && full, "CloseWrite on the ok edge of the assertion, Close only on the other edge", "the copier closes the destination outright although it supports CloseWrite (or never calls CloseWrite): the opposite direction of the tunnel dies with it and the peer that half-closed after sending never receives the answer", ta.Pos())
+		break
 	}
 	r.Decide("path", "(*M.Proxy).handleConnectRequest: a finished copier wakes the opposite direction", found, "a close / half-close / deadline call follows the end of a copy before the join completes", "nothing between the end of one copy and the join can end the other copy: a half-closed tunnel stalls until the idle deadline", hcr.Pos())
 }
